@@ -4,6 +4,7 @@ import (
 	"errors"
 	"fmt"
 	"sort"
+	"strconv"
 )
 
 // A Schema contains a list of types. It makes sure that all types are valid and
@@ -257,6 +258,13 @@ func (s *Schema) buildRels() {
 	for _, typ := range s.Types {
 		for _, rel := range typ.Rels {
 			relName := rel.String()
+
+			// The name joins type and relationship names with "_", so
+			// different relationships whose names contain "_" can have
+			// the same name. Make the key unambiguous.
+			norm := rel.Normalize()
+			relName += " " + strconv.Quote(norm.FromType) + strconv.Quote(norm.FromName)
+
 			s.rels[relName] = rel.Normalize()
 		}
 	}
